@@ -69,7 +69,7 @@ pub fn run(ctx: &mut Ctx, o: &RichOpts) {
         };
         let decoy = o.decoy_on || r.gen_bool(0.5);
         let mut claims = rclaims(&mut r, &o.tree, now());
-        if hk.is_none() && !prelude && r.gen_bool(0.06) {
+        if hk.is_none() && !prelude && r.gen_bool(0.3) {
             // a `cnf` claim of the USER's own (no holder key is bound, so the library adds none): just another claim, whatever
             // it contains - also JWKs the library could not use as a key
             claims["cnf"] = [
